@@ -46,6 +46,7 @@ type Block struct {
 	UnknownFields   bool     // sprinkle unknown (skippable) fields
 	IndexData       bool     // BlobHeader.indexdata present
 	IndexBytes      int      // size of BlobHeader.indexdata (0: three bytes when IndexData is set)
+	PadVarint       bool     // BlobHeader.datasize written as a fixed-width (non-minimal) varint
 	PadBytes        int      // an unknown (skippable) bytes field of this size pads the PrimitiveBlock
 }
 
@@ -134,13 +135,17 @@ type Relation struct {
 }
 
 func (b *Block) indexLen() int {
+	n := 0
 	switch {
 	case b.IndexBytes > 0:
-		return b.IndexBytes
+		n = b.IndexBytes
 	case b.IndexData:
-		return 3
+		n = 3
 	}
-	return 0
+	if b.PadVarint {
+		n |= padVarintFlag
+	}
+	return n
 }
 
 func (b *Block) gran() int64 {
